@@ -101,9 +101,11 @@ Definition seal_prog (sorted : bool) : list pop :=
 Definition release_prog (sorted : bool) : list pop :=
   PRemove KMeta :: (if sorted then [PRemove KDocs] else []).
 
-(* frac/active.go Suicide, branch "was not released": sorted docs left by an interrupted seal,
-   then docs, then meta (fixes 0dd016e and 06bb8bb) *)
-Definition active_suicide_prog : list pop := [PRemove KSdocs; PRemove KDocs; PRemove KMeta].
+(* frac/active.go Suicide, branch "was not released": index and sorted docs left by an interrupted
+   seal, then docs, then meta (fixes 30ce157, 0dd016e and 06bb8bb) *)
+Definition active_suicide_prog : list pop := [PRemove KIndex; PRemove KSdocs; PRemove KDocs; PRemove KMeta].
+(* before 30ce157 *)
+Definition active_suicide_prog_v2 : list pop := [PRemove KSdocs; PRemove KDocs; PRemove KMeta].
 (* before 0dd016e *)
 Definition active_suicide_prog_v1 : list pop := [PRemove KDocs; PRemove KMeta].
 (* before 06bb8bb *)
@@ -208,6 +210,7 @@ Record progs := mkprogs { pg_new : list pop; pg_asuicide : list pop; pg_ssuicide
 Definition cur_progs := mkprogs new_active_prog active_suicide_prog sealed_suicide_prog.
 Definition v0_progs := mkprogs new_active_prog_v0 active_suicide_prog_v0 sealed_suicide_prog.
 Definition v1_progs := mkprogs new_active_prog active_suicide_prog_v1 sealed_suicide_prog.
+Definition v2_progs := mkprogs new_active_prog active_suicide_prog_v2 sealed_suicide_prog.
 Definition nodel_progs := mkprogs new_active_prog active_suicide_prog sealed_suicide_prog_nodel.
 
 Definition restart (pg : progs) (sorted : bool) (s : st) (nonlast : bool) : st :=
